@@ -41,6 +41,7 @@ TCreate ==
   /\ IsEvent("Create")
   /\ LET d == Ev.f IN
      /\ d \notin created
+     /\ Ev.explicit = (d \in Requested)      \* a requested file is always registered as explicit (C19 depends on it)
      /\ \/ mpc = "start" /\ d \in Requested
         \/ \E f \in Files : pc[f] = "loop" /\ imports[f][idx[f]] = d /\ d # f
         \/ \E f \in Files : pc[f] = "loopdp" /\ d = DP
@@ -141,7 +142,15 @@ TMainWoke ==
   /\ \/ Ev.how = "ready" /\ MainWaitReady
      \/ Ev.how = "ctx" /\ MainWaitCtx
 
-TReturn == IsEvent("Return") /\ mres = Ev.err /\ MainReturn
+(* The Cycle event is logged when handleImportCycle is entered, i.e. just BEFORE the error reaches the
+   handler (the handler's own mutex is in package reporter and carries no hook).  A Return that reads
+   h.Error() inside that window does not see the report yet: while a task that logged Cycle has not yet
+   logged its final release, the caller may still return the first task failure instead.          *)
+CycleInFlight == \E f \in Files : out[f] = "cycle" /\ pc[f] = "fin"
+TReturn == /\ IsEvent("Return")
+           /\ \/ mres = Ev.err
+              \/ CycleInFlight /\ mres = "cycle" /\ Ev.err = FirstFailure
+           /\ MainReturn
 
 TCancel == IsEvent("Cancel") /\ ExternalCancel
 
